@@ -246,7 +246,7 @@ def next_int_rule(ctx, repo):
     for fd, ia in ((69888, 32), (70908, 36)):
         ts = set()
         for base in (0, fd, 5 * fd, 300 * fd):
-            for d in list(range(-3, 80)) + list(range(fd - 80, fd + 3)) + [fd // 2]:
+            for d in (list(range(-3, 80)) + list(range(fd - 80, fd + 3)) + [fd // 2]) if ctx.tier != 'thorough' else range(-3, fd + 3):
                 if base + d >= 0:
                     ts.add(base + d)
         samples.append((fd, ia, sorted(ts)))
